@@ -178,3 +178,64 @@ Proof.
     rewrite Hnil in H. destruct H.
   - intros x Hx. apply in_or_app. right. now apply (Hin rows x).
 Qed.
+
+(* ------------------------------------------------------------------ the service model on schedules without sharing is the history model
+   every push is followed by its loop round and its answer before the next one arrives: the projection to
+   (cache, table, acknowledged samples) is SeriesIndex.run on the Push / CacheReset / CacheEvict history *)
+Definition unshared (a : action) : list sact :=
+  match a with
+  | Push ss ts_ok spl_ok => [SArrive ss spl_ok; SSwap; SAnswer ts_ok]
+  | CacheReset => [SReset]
+  | CacheEvict k => [SEvict k]
+  | _ => []
+  end.
+Definition one_at_a_time (a : action) : bool :=
+  match a with Push _ _ _ | CacheReset | CacheEvict _ => true | _ => false end.
+Definition idle (st : sstate) : Prop := s_buf st = [] /\ s_wait st = [] /\ s_fly st = None.
+Definition sview (st : sstate) : state :=
+  {| cache := s_cache st; ts_rows := s_table st; acked := s_acked st; pending := [] |}.
+
+Lemma unshared_step st a :
+  one_at_a_time a = true -> idle st ->
+  idle (srun append_all st (unshared a)) /\ sview (srun append_all st (unshared a)) = fst (step (sview st) a).
+Proof.
+  intros Ha [Hb [Hw Hf]]. destruct a as [ss ts_ok spl_ok| | | | | | | |k]; try discriminate Ha; clear Ha.
+  - cbn [unshared srun sstep]. unfold append_all.
+    cbn [step fst]. unfold begin_req, more_req, finish, send_chunk, store_chunk, empty_flight, sview.
+    cbn [f_rows f_spl f_ann f_done f_ok cache ts_rows acked pending app].
+    change (fold_left on_entries ss (s_cache st, [])) with (parse (s_cache st) ss).
+    destruct (snd (parse (s_cache st) ss)) as [|x rows] eqn:Hrows; cbn [is_nil q_rows q_spl q_splok q_id].
+    + (* nothing to announce: fulfilled at once, no INSERT *)
+      unfold complete. cbn [q_rows q_spl q_splok q_id s_cache s_table s_acked s_buf s_wait s_fly s_next s_answers s_inserts sstep].
+      rewrite Hf, Hw. cbn [is_nil s_fly].
+      split; [repeat split; assumption|].
+      cbn [andb orb app]. rewrite !app_nil_r.
+      destruct (is_nil (samples_of ss) || spl_ok); destruct ts_ok; reflexivity.
+    + rewrite Hf, Hb, Hw. cbn [app is_nil s_fly s_wait s_buf s_cache s_table s_acked s_next s_answers s_inserts fold_left].
+      unfold complete. cbn [q_rows q_spl q_splok q_id s_cache s_table s_acked s_buf s_wait s_fly s_next s_answers s_inserts].
+      split; [repeat split; reflexivity|].
+      cbn [andb orb]. rewrite !app_nil_r.
+      destruct ts_ok; cbn [andb]; [destruct (is_nil (samples_of ss) || spl_ok)|]; reflexivity.
+  - cbn. split; [repeat split; assumption|reflexivity].
+  - cbn. split; [repeat split; assumption|reflexivity].
+Qed.
+
+Lemma unshared_run : forall h st,
+  forallb one_at_a_time h = true -> idle st ->
+  idle (srun append_all st (flat_map unshared h)) /\ sview (srun append_all st (flat_map unshared h)) = run (sview st) h.
+Proof.
+  assert (Happ : forall a b st, srun append_all st (a ++ b) = srun append_all (srun append_all st a) b).
+  { induction a as [|x a IH]; intros b st; cbn [srun app]; [reflexivity|apply IH]. }
+  induction h as [|a h IH]; intros st Hh Hi; cbn [flat_map run forallb] in *; [split; [assumption|reflexivity]|].
+  apply andb_true_iff in Hh. destruct Hh as [Ha Hh].
+  destruct (unshared_step st a Ha Hi) as [Hi' Hv]. rewrite Happ.
+  destruct (IH _ Hh Hi') as [Hi'' Hv']. split; [assumption|]. rewrite Hv'. now rewrite Hv.
+Qed.
+
+Lemma service_model_without_sharing_is_history_model h :
+  forallb one_at_a_time h = true ->
+  sview (srun append_all sinit (flat_map unshared h)) = run init h.
+Proof. intros Hh. apply (unshared_run h sinit Hh). repeat split. Qed.
+
+Example one_at_a_time_met : forallb one_at_a_time w_retry = true /\ acked (run init w_retry) <> [].
+Proof. vm_compute. split; [reflexivity|discriminate]. Qed.
